@@ -175,6 +175,66 @@ func c01PolicyInForce(c *Ctx, r *R) {
 		mustPass(c, r, "in-range-policy-only-policy-ref", fn, isInstr(l.Instr), eng.NewCut().AddEdges(isPol...), "an in-range policy state is loaded only from entries for the policy reference", "a policy state can be loaded from an entry that is not for refs/gittuf/policy")
 		errPropagates(c, r, "in-range-policy-load-error", l)
 	}
+	// every in-range policy / attestations entry takes effect: from the edge on which the popped
+	// entry is for the policy (attestations) reference, the next entry is reached only after the
+	// state was loaded from that entry and stored in the slot verifyEntry reads — except the policy
+	// entry that IS firstEntry (already loaded)
+	heads := loopHeads(fn)
+	next := func(in ssa.Instruction) bool { return heads[in] || isSuccessReturn(in) }
+	isFirstEq := eng.BoolEdges(fn, func(v ssa.Value) bool {
+		ek, _, ok := eng.RootCall(v)
+		if !ok || ek.Method() != "Equal" {
+			return false
+		}
+		mentionsFirst := false
+		for _, side := range []ssa.Value{ek.Recv(), ek.Arg(0)} {
+			eng.WalkOperands(side, 5, func(w ssa.Value) {
+				if eng.PParam("firstEntry")(w) {
+					mentionsFirst = true
+				}
+			})
+		}
+		return mentionsFirst
+	}, true)
+	type slot struct {
+		key, ref, loader string
+		arg              ssa.Value
+	}
+	for _, sl := range []slot{{"policy", refPolicy, fnLSFE, k.Arg(2)}, {"attestations", refAttest, "internal/attestations.LoadAttestationsForEntry", k.Arg(3)}} {
+		isRef := eng.RelEdges(fn, token.EQL, eng.PMethod("GetRefName", nil), eng.PStr(sl.ref))
+		loads := eng.CallsTo(fn, false, sl.loader)
+		cut := eng.NewCut()
+		stored := false
+		for _, l := range loads {
+			// only loads for the popped entry (not the initial state)
+			if !eng.PParam("firstEntry")(l.Arg(1)) && !eng.AnyRootFromCall(l.Arg(1), 0, "(internal/policy.searcher).FindAttestationsEntryFor", "(internal/policy.searcher).FindPolicyEntryFor") {
+				l.OKPoints(cut)
+				for _, a := range eng.Assignments(sl.arg) {
+					if lk, idx, ok := eng.RootCall(a.Val); ok && idx == 0 && lk.Instr == l.Instr {
+						stored = true
+					}
+				}
+			}
+		}
+		if sl.key == "policy" {
+			cut.AddEdges(isFirstEq...)
+		}
+		okU := len(isRef) > 0 && stored
+		var wit *eng.Path
+		for _, e := range isRef {
+			if p := eng.FindPath(e.To(), 0, next, cut); p != nil {
+				okU = false
+				wit = p
+			}
+		}
+		msg := "an in-range entry for the " + sl.key + " reference can be passed over without its state being loaded and put in force (later entries would be judged by a stale " + sl.key + " state)"
+		if wit != nil {
+			msg += "; witness " + c.DescribePath(wit)
+		} else if !stored {
+			msg += ": the state loaded from the entry never reaches verifyEntry's " + sl.key + " argument"
+		}
+		r.Check(okU, "updates-applied:"+sl.key, k.Pos(), "every in-range "+sl.key+" entry is loaded and put in force before the next entry is judged", msg)
+	}
 	// queue comes from GetReferenceUpdaterEntriesInRangeForRef(repo, firstEntry.GetID(), lastEntry.GetID(), target)
 	rg := eng.CallsTo(fn, false, "pkg/rsl.GetReferenceUpdaterEntriesInRangeForRef")
 	if q, ok := oneCall(r, "range-query", fn, rg, "GetReferenceUpdaterEntriesInRangeForRef"); ok {
